@@ -10,6 +10,7 @@ from .spec import parse_contracts, parse_expr, SpecError, Decl, Clause
 from .speceval import SpecCtx, uses_trace, match_name
 from .ir import short, MOD
 from . import solve
+from . import fsm as _fsm_models  # registers the builder models
 
 
 class Obl:
@@ -536,7 +537,7 @@ class Engine(Executor, Calls):
                 o = self.obl("ensures", cl.label or ("line%d" % cl.line), cl.tags)
                 try:
                     goal = to_bool(c2.eval(cl.ast))
-                except SpecError as e:
+                except (SpecError, Unsupported) as e:
                     o.instances += 1
                     o.unknown.append({"pos": out.info, "reason": "spec error: %s" % e})
                     continue
@@ -548,7 +549,7 @@ class Engine(Executor, Calls):
                             o.covered = True
                         elif o.covered is None:
                             o.covered = False
-                    except SpecError:
+                    except (SpecError, Unsupported):
                         pass
             # frame
             if not self.quiet:
@@ -567,14 +568,27 @@ class Engine(Executor, Calls):
         allowed = []
         for cl in decl.get("modifies"):
             for t in cl.extra["targets"]:
-                try:
-                    p = ctx.eval_addr(t)
-                    if isinstance(p, PtrV):
-                        allowed.append((p.cell if not isinstance(p.cell, str) else st.symcells.get(p.cell, p.cell), tuple(p.path)))
-                    elif isinstance(p, MapV):
-                        allowed.append((p.cell, ()))
-                except (SpecError, Unsupported):
-                    pass
+                def cellof(p):
+                    return p.cell if not isinstance(p.cell, str) else st.symcells.get(p.cell, p.cell)
+                for old in (False, True):
+                    ctx.in_old = old
+                    try:
+                        v = ctx.eval(t)
+                        if isinstance(v, MapV):
+                            allowed.append((v.cell, ()))
+                        elif isinstance(v, PtrV) and v.cell is not None:
+                            allowed.append((cellof(v), tuple(v.path)))
+                    except (SpecError, Unsupported, KeyError):
+                        pass
+                    try:
+                        p = ctx.eval_addr(t)
+                        if isinstance(p, PtrV):
+                            allowed.append((cellof(p), tuple(p.path)))
+                        elif isinstance(p, MapV):
+                            allowed.append((p.cell, ()))
+                    except (SpecError, Unsupported, KeyError):
+                        pass
+                ctx.in_old = False
         bad = []
         for (cell, path) in st.writes:
             ok = False
